@@ -522,7 +522,10 @@ def _ana_replay(case):
     for op in case["ops"]:
         if op == "C":
             try:
-                an.compute_siphons_traps()
+                if case.get("use_all") and net["rxns"]:
+                    an.compute_all()              # the convenience route (semiflows, siphons / traps, persistence)
+                else:
+                    an.compute_siphons_traps()
                 computed = copy.deepcopy(net)
                 yield op, "done", an, copy.deepcopy(net), computed, obj
             except ValueError:
@@ -864,7 +867,44 @@ def reach(case, limit=200000):
     return found, len(seen), False
 
 
+def _facade_check(case):
+    """run_realizability_from_rxn_strings (parse reaction strings -> hypergraph -> inputs -> build -> König + BFS) must report what
+    the direct API reports for the same pathway."""
+    import io
+    import contextlib
+    import re
+    from synkit.CRN.Path.realizability import run_realizability_from_rxn_strings
+    if not all(re.fullmatch(r"[A-Za-z][A-Za-z0-9]*", s_) for s_ in case["species"]):
+        return []
+    if any(c <= 0 for _, a, b in case["edges"] for _, c in a + b) or any(not a and not b for _, a, b in case["edges"]):
+        return []
+
+    def side(x):
+        return " + ".join(("%d %s" % (c, s_)) if c != 1 else s_ for s_, c in x)
+    lines = ["%s>>%s" % (side(a), side(b)) for _, a, b in case["edges"]]
+    fl = {e_: f_ for e_, f_ in case["flow"]}
+    flow = {"r_%d" % (k + 1): fl.get(eid, 0) for k, (eid, _, _) in enumerate(case["edges"])}
+    with contextlib.redirect_stdout(io.StringIO()):
+        pr1, info1 = run_realizability_from_rxn_strings(lines, flow)                    # positional flow, verbose default
+        pr2, info2 = run_realizability_from_rxn_strings(lines, flow=flow, verbose=False)
+    direct = _flow_setup(dict(case, via="direct", vertices=sorted(set(case["species"]))))
+    ok, cert = direct.is_realizable()
+    idx = {eid: "r_%d" % (k + 1) for k, (eid, _, _) in enumerate(case["edges"])}
+    want = (bool(ok), None if cert is None else [idx[t] for t in cert])
+    out = []
+    for nm, info, pr_ in (("positional", info1, pr1), ("keyword", info2, pr2)):
+        got = (bool(info["bfs"]), info["certificate"])
+        if got != want or pr_.certificate != info["certificate"]:
+            out.append(dict(clause="facade-rxn-strings", detail="run_realizability_from_rxn_strings(%r, %r) [%s] reports %r, the direct API %r"
+                            % (lines, flow, nm, got, want)))
+    return out[:1]
+
+
 def _oracle_flow(case):
+    if case.get("via") == "hg" and case.get("max_states") is None and case.get("max_depth") is None:
+        fc = _facade_check(case)
+        if fc:
+            return fc
     pr = _flow_setup(case)
     ms, md = case.get("max_states"), case.get("max_depth")
     ok, cert = pr.is_realizable(max_states=ms, max_depth=md)
@@ -1053,6 +1093,15 @@ def _oracle_ana(case):
             if op == "R" and computed is None and (an.siphons is not None or an.traps is not None):
                 fails.append(dict(clause="analyzer-history", detail="call %d: results %r / %r before any compute" % (i, an.siphons, an.traps)))
             continue
+        # derived views of the analyzer must show the stored results
+        d = an.as_dict()
+        sm = an.summary
+        if (d["siphons"] != (None if an.siphons is None else [sorted(x) for x in an.siphons])
+                or d["traps"] != (None if an.traps is None else [sorted(x) for x in an.traps])
+                or (sm is not None and (sm.siphons != an.siphons or sm.traps != an.traps))
+                or (an.persistence_ok is not None and ("siphons=%d, traps=%d" % (len(an.siphons), len(an.traps))) not in an.explain())):
+            fails.append(dict(clause="analyzer-facade", detail="call %d: as_dict / summary / explain disagree with the siphons / traps properties: %r vs %r / %r"
+                              % (i, d, an.siphons, an.traps)))
         ws, wt = want(computed)
         gs = None if an.siphons is None else {frozenset(x) for x in an.siphons}
         gt = None if an.traps is None else {frozenset(x) for x in an.traps}
@@ -1839,6 +1888,8 @@ def gen_analyzer_histories(n, rng):
             stages = [[]] + [[["add", l, r] for l, r in first]] + stages[1:]
             pat = ["C", "R", "E"] + pat
         c = dict(t="ana", kind="ana", stages=stages, k=rng.choice([None, None, 1, 2, 3]), ops=pat)
+        if rng.random() < 0.25:
+            c["use_all"] = True
         if gmode:
             c.update(gmode=gmode, gseed=rng.randrange(10 ** 6))
         cases.append(c)
